@@ -55,9 +55,9 @@ def rich_compare(interp, op, l, r, site):
     ctx = interp.ctx
     if isinstance(l, Opaque) and isinstance(r, Opaque):
         if isinstance(op, ast.Lt):
-            return mk_bool(lt(l.t, r.t))
+            return mk_bool(ctx.mk_lt(l.t, r.t))
         if isinstance(op, ast.Gt):      # A7: a > b  <=>  b < a
-            return mk_bool(lt(r.t, l.t))
+            return mk_bool(ctx.mk_lt(r.t, l.t))
         if isinstance(op, ast.Eq):
             return mk_bool(ctx.mk_eq(l.t, r.t))
         if isinstance(op, ast.NotEq):
@@ -91,6 +91,8 @@ def rich_compare(interp, op, l, r, site):
         raise PyRaise(ExcVal("TypeError", ident=("unorderable", name)))
     if isinstance(l, tuple) and isinstance(r, tuple):
         return (yield from tuple_compare(interp, op, l, r, site))
+    if isinstance(l, SList) and isinstance(r, SList) and l.seq is None and r.seq is None:
+        return (yield from tuple_compare(interp, op, tuple(l.items), tuple(r.items), site))
     if isinstance(l, str) and isinstance(r, str):
         if isinstance(op, ast.Eq):
             return l == r
@@ -420,6 +422,19 @@ def del_item(interp, o, k):
 
 
 def contains(interp, container, x):
+    if isinstance(container, SList) and container.seq is None:
+        # `x in list`: identity or == (lists/deques compare by content)
+        ctx = interp.ctx
+        for e in container.items:
+            if e is x:
+                return True
+            if isinstance(e, SList) and isinstance(x, SList) and e.kind == x.kind:
+                if ctx.branch(e.to_seq() == x.to_seq()):
+                    return True
+            elif isinstance(e, Opaque) and isinstance(x, Opaque):
+                if ctx.branch(z3.Or(e.t == x.t, ctx.mk_eq(e.t, x.t))):
+                    return True
+        return False
     if isinstance(container, (tuple, list)):
         for c in container:
             b = identical(c, x)
@@ -677,6 +692,9 @@ def call_builtin(interp, name, args, kwargs, site):
             return NativeIter("seq", list(reversed(v.items)))
         if isinstance(v, (tuple, list)):
             return NativeIter("seq", list(reversed(v)))
+        if isinstance(v, NativeIter) and v.kind == "seq":
+            seq = v.data.items if isinstance(v.data, SList) else v.data
+            return NativeIter("seq", list(reversed(seq[v.idx:])))
         raise Unsupported("reversed")
     if name == "map":
         f, v = args[0], args[1]
